@@ -272,12 +272,42 @@ fn component_total(maxc: u32) -> u64 {
     (0..=maxc).map(|l| 5u64.pow(l)).sum::<u64>() * 2 * 2 * 2 * 2 * 8
 }
 
+const MCOMPS: [&str; 4] = ["a", ".", "..", ""];
+/// mixed-separator enumeration: every sequence of n components from {a, ., .., empty}, every
+/// assignment of '/' or '\\' to each of the n-1 joints, times {no, '/', '\\'} leading separator.
+fn nth_mixed_name(mut k: u64, n: u32) -> String {
+    let lead = k % 3;
+    k /= 3;
+    let mut seps = Vec::new();
+    for _ in 1..n.max(1) {
+        seps.push(if k % 2 == 0 { '/' } else { '\\' });
+        k /= 2;
+    }
+    let mut s = String::new();
+    match lead {
+        1 => s.push('/'),
+        2 => s.push('\\'),
+        _ => {}
+    }
+    for i in 0..n {
+        if i > 0 {
+            s.push(seps[i as usize - 1]);
+        }
+        s.push_str(MCOMPS[(k % 4) as usize]);
+        k /= 4;
+    }
+    s
+}
+fn mixed_total(n: u32) -> u64 {
+    3 * 2u64.pow(n.saturating_sub(1)) * 4u64.pow(n)
+}
+
 fn hostile(s: &str) -> bool {
     s.contains("..") || s.starts_with('/') || s.starts_with('\\') || s.contains('\0') || s.contains('\\')
 }
 
 pub fn run(ctx: &mut Ctx) {
-    ctx.rule("alphabet: every string over {a . / \\\\ NUL} up to length L (quick 8, thorough 10), 1000 names per generated archive, observed through ZipFile of the seekable reader, ZipFile of the streaming reader and ZipStreamFileMetadata; components: every sequence of <=C components from {a,b,.,..,empty} x separator x leading/trailing/doubled separator x NUL position; random: Unicode/control names up to 64 KiB. Oracle: validity predicates on the result + string model. Non-trivial = name contains '..', a leading separator, NUL or backslash; all enumerated names are distinct by construction.");
+    ctx.rule("alphabet: every string over {a . / \\\\ NUL} up to length L (quick 8, thorough 10), 1000 names per generated archive, observed through ZipFile of the seekable reader, ZipFile of the streaming reader and ZipStreamFileMetadata; components: every sequence of <=C components from {a,b,.,..,empty} x separator x leading/trailing/doubled separator x NUL position; mixed_separators: every sequence of <=M components (quick 6, thorough 7) from {a,.,..,empty} with '/' or '\\\\' chosen independently at every joint x {none,'/','\\\\'} leading separator; random: Unicode/control names up to 64 KiB. Oracle: validity predicates on the result + string model. Non-trivial = name contains '..', a leading separator, NUL or backslash; all enumerated names are distinct by construction.");
     ctx.assume("host path semantics are Unix ('/' separates, '\\\\' is an ordinary character for enclosed_name and a separator for mangled_name)");
     const B: u64 = 1000;
     let l = ctx.q(8u32, 10);
@@ -308,6 +338,32 @@ pub fn run(ctx: &mut Ctx) {
         },
     );
     ctx.add_class("components:names-checked", ctotal);
+    // mixed separators: '\\' is an ordinary character for enclosed_name on Unix but a separator for
+    // mangled_name; names that mix both in front of '..' chains need more characters than the alphabet
+    // sweep reaches (e.g. `a\a/../..`), so they get their own component-level enumeration
+    let mmax = ctx.q(6u32, 7);
+    let mut offs = vec![0u64];
+    for n in 1..=mmax {
+        offs.push(offs[n as usize - 1] + mixed_total(n));
+    }
+    let mtotal = *offs.last().unwrap();
+    let mchunks = (mtotal + B - 1) / B;
+    ctx.enumerate::<Range>(
+        "mixed_separators",
+        mchunks,
+        &|i| Range { first: i * B, count: B.min(mtotal - i * B) },
+        &|r: &Range, info: &mut Info| {
+            let names: Vec<String> = (r.first..r.first + r.count)
+                .map(|k| {
+                    let n = (1..=mmax).find(|&n| k < offs[n as usize]).unwrap();
+                    nth_mixed_name(k - offs[n as usize - 1], n)
+                })
+                .collect();
+            info.nontrivial = names.iter().any(|n| hostile(n));
+            Verdict::from_result(check_batch(&names))
+        },
+    );
+    ctx.add_class("mixed_separators:names-checked", mtotal);
     ctx.exhaustive_all = true;
     let n = ctx.q(20000, 300000);
     ctx.explore::<Vec<String>>(
